@@ -561,6 +561,27 @@ func runScenario(sc scenario) (out outcome) {
 	var writerDone <-chan struct{}
 	if len(sc.Writes) > 0 {
 		writerDone = d.goSafe(func() { wok = d.writer() })
+		if d.sc.Poll {
+			stopPoll := writerDone
+			polls := 0
+			d.goSafe(func() {
+				for {
+					select {
+					case <-stopPoll:
+						return
+					case <-d.abort:
+						return
+					default:
+					}
+					d.tnc.Version()
+					d.count("version_polls_during_writes", 1)
+					if polls++; polls >= 150 {
+						return // enough interleavings; keeps the simulator's event log small
+					}
+					time.Sleep(time.Duration(200+polls*37%900) * time.Microsecond)
+				}
+			})
+		}
 	}
 	for i, it := range sc.A {
 		d.sendItem("A", i, it)
